@@ -107,6 +107,16 @@ def _sink(x):
     return None
 
 
+def _dispatch_sink(f, x):
+    """asio::dispatch on anything but the handler's immediate executor (which the property exempts) runs the continuation
+    inline when the caller is already on that executor"""
+    if isinstance(x, dict) and x.get('k') == 'call' and callee_q(x) == 'boost::asio::dispatch' and x.get('args'):
+        ex = origin(f, x['args'][0])
+        if not contains(ex, lambda n: n.get('k') == 'call' and callee_name(n) == 'get_immediate_executor'):
+            return 'asio::dispatch(...) [runs its continuation inline when called from the executor\'s own thread]'
+    return None
+
+
 def rule_noinline(fx, cg, v):
     roots = [f for f in fx.fns if f.cls in PUBLIC_INITIATIONS and f.n == 'operator()']
     by_root = {}
@@ -120,7 +130,7 @@ def rule_noinline(fx, cg, v):
         for key, (f, parent, line) in seen.items():
             for b, i, l, x in f.elements():
                 x = f.resolve({'k': 'elem', 'b': b, 'i': i})
-                s = _sink(x)
+                s = _sink(x) or _dispatch_sink(f, x)
                 if s:
                     hits.append('%s at %s:%d via %s' % (s, f.path_file(), l, cg.chain(seen, key)))
         v.saw(r)
